@@ -52,7 +52,7 @@ def generate(tier, rng):
         for t in tiers:
             t["max"] = mx
         cases.append({"op": "tgspace", "tiers": tiers, "args": {"s": rng.randint(0, mx), "d": rng.randint(1, 9),
-                                                                "mode": rng.choice(["stretch", "split", "no_change"])},
+                                                                "mode": rng.choice(["stretch", "split", "no_change", "error"])},
                       "scale": gen.pick_scale(rng)})
     return cases
 
@@ -107,8 +107,15 @@ def model_expr(case):
 def py_checks(case, r):
     if case["op"] != "tgspace":
         return []
+    a = case["args"]
+    straddled = a["mode"] == "error" and any(t["kind"] == "I" and any(e[0] < a["s"] < e[1] for e in t["entries"]) for t in case["tiers"])
     if "ok" not in r:
+        # the error mode refuses exactly when an interval lies across the insertion point
+        if straddled and r.get("err") == "ArgumentError":
+            return []
         return ["Textgrid.insertSpace raised %s" % r.get("exc", r)]
+    if straddled:
+        return ["Textgrid.insertSpace(collisionMode='error') did not raise although an interval lies across the insertion point"]
     v = r["ok"]
     fails = []
     if v["names"] != [t["name"] for t in case["tiers"]]:
